@@ -876,6 +876,35 @@ fn run_inner<I: Flavour>(sc: &Scenario) -> Outcome {
             fail!(prop_of(sc.stages.last().unwrap_or(&Stage::Sort)), sc.stages.last().map(|s| s.name()).unwrap_or("subscriber"), "source dropped but the stream did not end".to_string(), step, "None".into(), "Pending".into());
         }
     }
+    // C05: "a direct call contributes exactly one diff, and the documented no-ops (pop on empty, clear on empty, truncate to at
+    // least the current length) contribute none": count what the plain subscriber received over a history of direct calls
+    if !abandoned && sc.final_drain && sc.cap >= 16 && sc.steps.len() < sc.cap && side_check("C05") {
+        let mut expected = 0usize;
+        let mut direct_only = true;
+        let mut m2 = Model::new(sc.initial);
+        for (o, _) in &sc.steps {
+            let len = m2.v.len();
+            match o {
+                Op::Tx(..) => direct_only = false,
+                Op::SetParam(..) | Op::CloseParam(..) => {}
+                Op::Clear | Op::PopFront | Op::PopBack => expected += (len > 0) as usize,
+                Op::Truncate(n) => expected += (*n < len) as usize,
+                _ => expected += 1,
+            }
+            m2.apply(o);
+        }
+        if direct_only {
+            if let Some(base) = rts.first() {
+                if base.st == Stage::Identity {
+                    let got: usize = base.log.borrow().iter().map(|it| it.len()).sum();
+                    if got != expected {
+                        let step = sc.steps.len();
+                        fail!("C05", "subscriber", "a direct call contributes exactly one diff and the documented no-ops none: the number of diffs the subscriber received differs".to_string(), step, format!("{} diffs", expected), format!("{} diffs", got));
+                    }
+                }
+            }
+        }
+    }
     let final_log = rts.last().map(|r| r.log.borrow().iter().map(|it| it.iter().map(fmt_diff).collect()).collect()).unwrap_or_default();
     Outcome { failure: None, stats, final_log }
 }
